@@ -136,10 +136,14 @@ unsafe impl sealed::Exfiltrator for SignalOnly {
     type Output = c_int;
 
     fn store(&self, slot: &Self::Storage, _: c_int, _: &siginfo_t) {
+        #[cfg(feature = "verif-hooks")]
+        signal_hook_registry::verif::point(signal_hook_registry::verif::site::EX_STORE, slot as *const AtomicBool as usize, 0);
         slot.store(true, Ordering::SeqCst);
     }
 
     fn load(&self, slot: &Self::Storage, signal: c_int) -> Option<Self::Output> {
+        #[cfg(feature = "verif-hooks")]
+        signal_hook_registry::verif::point(signal_hook_registry::verif::site::EX_LOAD, slot as *const AtomicBool as usize, signal as usize);
         if slot
             .compare_exchange(true, false, Ordering::SeqCst, Ordering::Relaxed)
             .is_ok()
